@@ -28,33 +28,40 @@ import c02_local as LOC  # noqa: E402
 ID = "C02"
 LEVEL = "exploration"
 MANIFEST = {
-    "level_text": "Partial. PROVED (Coq, for every -O/-Q argument sequence): what each argument does to the optimiser's "
-                  "control table, optLevel and the list of passes optimizeFoam runs, over the table/decoder/pipeline "
-                  "regenerated from optfoam.c (so the configurations the run enumerates are the ones it thinks: -Qn = "
-                  "column min(n,4), -Q0 -Q<p> enables exactly p, -Q9 -Qno-<p> disables exactly p, -Qall, inline-all, "
-                  "inline-limit); and that the two LOCAL rewriting passes preserve the value of every pure FOAM "
-                  "expression of any size (constant folding over the generated folder table = the builtin "
-                  "specification of C04; the peephole rules with their side-effect guards).  EXPLORED, not proved: the "
-                  "property itself - the global passes (inline, cprop, cse, emerge, emerge-rr, env, flow, dassign, "
-                  "deadvar, hfold, cast) are decided only by the differential run: generated MiniAldor programs + the "
-                  "deterministic programs of lib/axllib/test, each at -Q0 versus levels 0-9, -O, every single pass "
-                  "-Q0 -Q<p>, every complement -Q9 -Qno-<p> and seeded random subsets, compared with each other and "
-                  "with the verified reference evaluator's expected output.",
-    "level_note": "Trusted: Coq kernel; extraction (ExtrOcamlBasic) + driver.ml; tools/c02_gen.py (statement shapes it "
-                  "recognises are listed in coq/Opt/Ctl.v; an unrecognised statement becomes StUnknown and the "
-                  "theorems stop checking); the MiniAldor oracle (C01); pre-built libaldor/axllib of /repo. The "
-                  "interpreter's stack-trace lines (addresses, frame names) are removed before comparison. Not "
-                  "modelled: C atof (only decimal numerals), clustered option letters, the global passes, statements "
-                  "and control flow in Fold/Peep (expressions only).",
-    "technique": "Coq proof of option decoding and of the local rewriting passes over regenerated tables + "
-                 "correspondence (-WD+optf; isolated passes via -Ffm) + differential run with shrinking",
+    "level_text": "Partial. PROVED in Coq (26 theorems, closed under the global context): (1) option decoding, for EVERY "
+                  "sequence of -O/-Q arguments the compiler accepts: -Qn = column min(n,4) of optControl[] (+ the inline limit "
+                  "of optQInlineLimit[] above 4), -O = -Q2, default = -Q1, -Q<p>/-Qno-<p> change exactly one entry "
+                  "(inline-all: also inline), -Q0 -Q<p> enables exactly p, -Q9 -Qno-<p> disables exactly p, -Qall, "
+                  "-Qinline-limit=<n>, last toggle wins, a rejected argument rejects the command line, -Q0 -Q<p> makes "
+                  "optimizeFoam run exactly the steps guarded by p; the level table is the one `aldor -h Q` documents. All "
+                  "over the table, decoder statements and pipeline REGENERATED from optfoam.c/cmdline.c/comsgdb.msg on every "
+                  "run.  (2) the two LOCAL rewriting passes preserve value and final machine state of every FOAM expression "
+                  "of the fragment (data nodes, variable reads, the specified builtins of C04, casts, opaque leaves with a "
+                  "side-effect flag), of any size: C02_cfold_preserves over b-c04's generated folder table, "
+                  "C02_peep_preserves over the two rule tables regenerated from of_peep.c, every rule with the side-effect "
+                  "guard the C applies.  EXPLORED, not proved: the property itself.  The global passes (inline, cprop, cse, "
+                  "emerge, emerge-rr, env, flow, dassign, deadvar, hfold, cast) are not modelled; they are decided only by "
+                  "the differential run: generated MiniAldor programs (verified oracle) + the deterministic programs of "
+                  "lib/axllib/test + generated builtin-level programs, each at -Q0 versus levels 0-9, -O, every single pass "
+                  "-Q0 -Q<p>, every complement -Q9 -Qno-<p> and seeded random subsets.",
+    "level_note": "Trusted: Coq kernel; extraction (ExtrOcamlBasic) + coq/Opt/driver.ml; tools/c02_gen.py (the statement "
+                  "shapes it recognises are the constructors of coq/Opt/Ctl.v; an unrecognised statement becomes StUnknown and "
+                  "the theorems stop checking); tools/c02_local.py (conversion of -Ffm units to model terms); the MiniAldor "
+                  "oracle (C01); b-c04's translation of of_cfold.c; pre-built libaldor/axllib of /repo.  Not compared: the "
+                  "interpreter's stack-trace lines and WHICH fault message a dying run prints (class fail either way).  Not "
+                  "modelled: C atof (only decimal numerals up to 7 digits), clustered option letters, statements and control "
+                  "flow in Fold/Peep (peepIf/peepSelect/peepCCall/peepEEnsure), float and big-integer rules, the peep-pending "
+                  "flag.  One out-of-bounds read of of_peep.c (peepBValOpInfo[OpNonNeg/OpNonPos/OpId].arity) is modelled by "
+                  "its observed value and re-checked by the tie on every run.",
+    "technique": "Coq proof of option decoding and of the local rewriting passes over regenerated tables + correspondence "
+                 "(-WD+optf output; isolated passes via -Ffm before/after) + differential run with config/program shrinking",
     "design_ref": "DESIGN.md section 4 / C02",
 }
 
 PROPS = "Props/Properties_C02.v"
 TARGETS = ["Props/Properties_C02.vo", "Opt/Extract.vo"]
 CORPUS_DIR = C.VERIF + "/corpus/C02"
-T_RUN = 40          # seconds per compile / run step
+T_RUN = 30          # seconds per compile / run step
 SLOW = 8.0          # corpus programs slower than this at -Q0 are left out of the sample
 # corpus programs that are not deterministic programs although two -Q0 runs agree
 EXCLUDE = {
@@ -129,7 +136,7 @@ def behave(ctx, prog, cfg, route="interp", keep=False, timeout=None):
         T = timeout or T_RUN
 
         def cerr(rc, out):
-            return {"cls": "timeout" if rc == 124 else "compile-error", "rc": rc, "t": time.time() - t0,
+            return {"cls": "timeout" if rc == 124 else "compile-error", "rc": rc, "t": time.time() - t0, "step": "compile",
                     "out": canon(out).replace(d + "/", "").replace(os.path.dirname(src) + "/", "")[-3000:],
                     "raw": TRACE_RE.sub("", out).replace(d + "/", "")[-1500:]}
         if route == "interp":
@@ -503,6 +510,7 @@ def load_records():
     return recs
 
 
+OVERFLOW = []      # differences beyond the per-run budget of minimised reports: one summary violation
 CBUG = re.compile(r"Compiler bug\.\.\.Bug: ([^\n]*)")
 SIG = re.compile(r"Compiler bug\.\.\.Bug: (fintStmt|fintEval|BCall): (\w+) .*unimplemented")
 
@@ -542,10 +550,8 @@ def report_diff(rep, ctx, prog, cfg, base, obs, model, G, recs, shrink_budget, r
             rep.violation("", {}, key=sig)          # prints KNOWN-FINDING once
         return sig
     if not allow_new:
-        rep.violation("%s behaves differently at `%s` than at -Q0 (not minimised: too many differences in one run)"
-                      % (name or "generated program", cfg_str(cfg)),
-                      {"program": name, "path": prog.get("path"), "lib": prog["lib"], "src": prog.get("src"),
-                       "config": list(cfg), "q0": tail(base), "observed": tail(obs)})
+        OVERFLOW.append({"program": name, "path": prog.get("path"), "lib": prog["lib"], "src": prog.get("src"),
+                         "config": list(cfg), "q0": tail(base), "observed": tail(obs)})
         return None
     if sig:
         key = sig
@@ -561,6 +567,8 @@ def report_diff(rep, ctx, prog, cfg, base, obs, model, G, recs, shrink_budget, r
         key = "corpus:%s:%s" % (name, cfg_str(mc)) if name else None
     src = prog.get("src")
     small = None
+    if key is None and not name and mobs["cls"] == "timeout" and mobs.get("step") == "compile":
+        key = "site:compile-hang:%s" % cfg_str(mc)
     known = key is not None and rep.finding_key_known(key)
     if not known and prog.get("seed") is not None and not name:
         def still(q):
@@ -579,6 +587,9 @@ def report_diff(rep, ctx, prog, cfg, base, obs, model, G, recs, shrink_budget, r
         t = shrink_lines(ctx, prog, mc, shrink_budget)
         if t is not None:
             small = {"src": t, "lines": t.count("\n") + 1}
+    if key is None and mobs["cls"] == "timeout" and mobs.get("step") == "compile":
+        # the compiler itself does not finish: keyed by the (minimal) configuration, not by the program
+        key = "site:compile-hang:%s" % cfg_str(mc)
     if key is None:
         h = hashlib.sha1(((small or {}).get("src") or src or "").encode()).hexdigest()[:8]
         key = "mini:%s:%s" % (h, cfg_str(mc))
@@ -816,6 +827,11 @@ def differential(rep, tier, exe, G, model):
                                "q0": base, "observed": b, "expected": p["expect_out"]},
                               key="mini-c:%s:%s" % (hashlib.sha1(p["src"].encode()).hexdigest()[:8], cfg_str(c)))
 
+    if OVERFLOW:
+        rep.violation("%d more (program, behaviour) pairs differ from -Q0 (not minimised: the %d minimised reports of this run "
+                      "come first)" % (len(OVERFLOW), (4 if tier == "quick" else 30)),
+                      {"count": len(OVERFLOW), "configs": dict(collections.Counter(cfg_str(o["config"]) for o in OVERFLOW)),
+                       "examples": OVERFLOW[:8]})
     rep.add_cov(evaluations=ctx.runs, distinct_nontrivial=stats["mini_programs"] + stats["corpus_deterministic"],
                 rule="same stdout (interpreter stack-trace lines removed) and same exit status class as at -Q0; generated "
                      "programs also compared with the oracle's expected output",
@@ -836,6 +852,8 @@ def differential(rep, tier, exe, G, model):
 
 LOCAL_CFGS = [["-Q0", "-Qcfold"], ["-Q0", "-Qpeep"], ["-Q0", "-Qcfold", "-Qpeep"], ["-Q0", "-Qcfold", "-Qffold", "-Qpeep"],
               ["-Q0", "-Qffold", "-Qpeep"]]
+# an operand exchange the model calls unsafe (cannot happen with the guards of the current source:
+# theorem C02_peep_flag); kept so that a weakened guard is named in the report
 SWAP_KEYS = {"SIntPlus": "peep:additive-operand-order", "SIntMinus": "peep:additive-operand-order",
              "BoolNot": "peep:negate-operand-order"}
 
@@ -860,7 +878,7 @@ def check_local(rep, exe, model, tier):
     frag_ops, fx_ops = [set(l.split()) for l in out.splitlines()[:2]]
     states = model.query(LOCAL_CFGS)
     if any(st is None for st in states):        # the option model rejects them (already reported): ask the compiler
-        fb = FallbackModel(None)
+        fb = FallbackModel({})
         states = [st if st is not None else fo for st, fo in zip(states, fb.query(LOCAL_CFGS))]
         states = [st if st is not None else {"tbl": [("cfold", "0"), ("ffold", "0")], "trace": []} for st in states]
     nprog = 24 if tier == "quick" else 240
@@ -993,6 +1011,10 @@ def run(rep, tier):
     if G["unknown_stages"] or G["unknown_steps"]:
         rep.notes.append("translator: unrecognised statements: %s" % (G["unknown_stages"] + G["unknown_steps"])[:4])
     ok = C.proof_stage(rep, ID, TARGETS, PROPS, None, defer=True)
+    # the deferred no-failing-input-found line of vlib.common is also suppressed by KNOWN findings, which
+    # this property always has: decide here, on new violations only
+    rep.proof_finalize = None
+    n_viol0 = len(rep.violations)
     exe = C.build_compiler()
     mini.build(rebuild_coq=True)
     model = None
@@ -1012,6 +1034,14 @@ def run(rep, tier):
         except C.BuildError as e:
             rep.violation("tie of the Fold/Peep models could not run: %s" % str(e)[:200], {"error": str(e)}, no_input=True)
     differential(rep, tier, exe, G, model)
+    if not ok and len(rep.violations) == n_viol0:
+        okm, log = C.coq_make(TARGETS)
+        if okm:
+            log = C.check_props_file(PROPS)["log"]
+        failing = re.findall(r'File "([^"]+)", line (\d+)', log)
+        rep.violation("proof obligation no longer checks: %s (the explorations of this run found no program whose behaviour "
+                      "changes)" % (failing[:3],),
+                      {"failing": failing[:10], "log_tail": log[-3000:], "props": PROPS}, no_input=True)
     rep.assume("the interpreter run of a saved .ao (`aldor -l<lib> -ginterp p.ao`) executes the FOAM the compile step wrote "
                "(compSavedFile does not call optimizeFoam)",
                "pre-built libaldor / axllib of /repo (compiled at their own -Q level) are linked as they are",
